@@ -848,3 +848,50 @@ def is_forall_flag(crate, body, sb, pred_name, over=()):
         if ok:
             return True
     return None
+
+
+# ---------------------------------------------------------------------------- iterator-adaptor chains
+PASS_ADAPTORS = {"into_iter", "iter", "iter_mut", "cloned", "copied", "by_ref", "deref", "as_slice", "borrow", "as_ref", "to_vec", "clone", "into_values", "values", "keys", "enumerate", "zip", "rev_NOT"}
+SINKS = {"collect", "for_each", "extend", "sum", "count", "fold", "try_for_each", "last", "max", "min", "unzip", "partition"}
+
+
+def adaptor_chains(body, source_name):
+    """adaptor chains that start at a call `source_name(..)` and end in a consumer (collect / for_each / extend(.., chain) ..):
+    [{'sink': CallSite, 'source': role of the source call, 'adaptors': [(name, closure Body | fn name | None)]}] (adaptors
+    listed from the source outwards)"""
+    crate = body.crate
+    out = []
+    for c in body.calls:
+        if body.blocks[c.bb]["cleanup"] or not c.callee or c.callee.name not in SINKS or not c.args:
+            continue
+        # for_each / try_for_each / fold: the closure argument is itself the last "adaptor"
+        tail = []
+        args = [body.role_of_operand(a) for a in c.args]
+        recv = args[0]
+        if c.callee.name == "extend" and len(args) > 1:
+            recv = args[1]
+        elif c.callee.name in ("for_each", "try_for_each", "fold") and len(args) > 1:
+            tail = [(c.callee.name, _closure_of_role(crate, args[-1]))]
+        chain = []
+        r = strip_role(recv)
+        src = None
+        while isinstance(r, tuple) and r[0] == "call" and r[3]:
+            if r[1] == source_name:
+                src = r
+                break
+            chain.append((r[1], _closure_of_role(crate, r[3][1]) if len(r[3]) > 1 else None))
+            r = strip_role(r[3][0])
+        if src is None:
+            continue
+        chain.reverse()
+        out.append({"sink": c, "source": src, "adaptors": chain + tail})
+    return out
+
+
+def _closure_of_role(crate, r):
+    r = strip_role(r)
+    if isinstance(r, tuple) and r[0] == "agg" and isinstance(r[1], str) and r[1] in crate.bodies:
+        return crate.bodies[r[1]]
+    if isinstance(r, tuple) and r[0] == "fnconst":
+        return str(r[1])
+    return None
